@@ -5,4 +5,8 @@ def classify(w):
     tail = w.get("what", "").split("] ", 1)[-1]
     if "equality: returns a model that is == its argument but has a different hash" in tail:
         return "model_eq_ignores_fields_that_hash_includes"
+    labels = w.get("history", [None, []])[1]
+    if tail.startswith("create_joint_distribution: returns a model that is not well formed: update_source() raises ValueError: "
+                       "Cannot only fix some parameters in block") and "fix_first" in labels:
+        return "joint_distribution_of_fixed_and_estimated_variance"
     return None
